@@ -44,6 +44,84 @@ def basis_jobs(MAXN, MAXNK, floats):
                          must_have=[r"bspline_deriv\.precondition", r"bspline\.precondition"]))
     return fns, jobs
 
+def _memsafe(job):
+    """run an E3 case and keep only what C05 is about: no out-of-object access, no dead/uninitialised read,
+    no failed assert while the extracted code runs on exactly-sized objects"""
+    fn, args = job
+    import c03, c03_simd
+    f = dict(variant=c03.variant_case, vcase=c03_simd.vcase, grad=c03_simd.gradient_case)[fn]
+    out = []
+    for (name, ok, det, dt) in f(args):
+        if "execution [" in name:
+            out.append((name.replace("execution", "memory-safe execution"), False, det, dt))
+        elif fn == "grad":
+            out.append((name, ok, det, dt))
+        else:
+            out.append((name.split(" == ")[0] + " runs inside its objects", True, "", dt))
+    return out
+
+def nd_bounded(rep, thorough):
+    """N-D block walkers and gradient drivers executed from the GOTO program on exactly-sized objects
+    (coefficients = prod(naxes) floats, local basis rows = order+1) at the lowest and highest admissible
+    centers: every access is bounds-checked by the interpreter.  BOUNDED (enumerated shapes)."""
+    import multiprocessing as mp, time
+    import c01, c02, c03, c03_simd
+    from tools import e3cores as EC, e3lib as E
+    PROGS = c01.PROGS; jobs = []
+    for Float in ("float", "double"):
+        cp, cparams, ce = EC.core_program("ndsplineeval_core", Float); PROGS["core_" + Float] = (cp, cparams, ce.name)
+        gp, gparams, ge = c03_simd.vprog("ndsplineeval_multibasis_core", Float); PROGS["vcore_" + Float] = (gp, gparams, ge.name)
+        pp, pparams, gs = c03_simd.build_grad_program(Float); PROGS["grad_" + Float] = (pp, pparams)
+        if Float == "float": rep.functions += [ce.info(), ge.info()] + [g.info() for g in gs]
+        for vname, kw, orderlists in c03.variants(thorough):
+            tagk = "_".join("%s%s" % (k, "".join(map(str, v)) if isinstance(v, tuple) else v) for k, v in sorted(kw.items()))
+            vp, vparams, ve = EC.core_program(vname, Float, tag="_" + tagk, cname=vname + "_" + tagk, **kw)
+            PROGS["variant_%s_%s_%s" % (Float, vname, sorted(kw.items()))] = (vp, vparams, ve.name)
+            mname = vname.replace("ndsplineeval_core", "ndsplineeval_multibasis_core")
+            if not ("D" in kw and kw["D"] > 7):
+                mp_, mparams, me = c03_simd.vprog(mname, Float, tag="_" + tagk, cname=mname + "_" + tagk, **kw)
+                PROGS["vvariant_%s_%s_%s" % (Float, mname, sorted(kw.items()))] = (mp_, mparams, me.name)
+            for orders in orderlists:
+                for naxes, centers in EC.shapes_for(orders)[0:3]:
+                    if len(orders) >= 6 and naxes != [o + 1 for o in orders] and not thorough and centers != [n - 1 for n in naxes]: continue
+                    jobs.append(("variant", (Float, vname, kw, orders, tuple(naxes), tuple(centers))))
+                    if not ("D" in kw and kw["D"] > 7) and len(orders) <= 7:
+                        jobs.append(("vcase", (Float, mname, kw, orders, tuple(naxes), tuple(centers))))
+        for which in ("member", "evaluator"):
+            for orders in [(2,), (0, 3), (2, 1, 3), (2, 2, 2, 3, 2, 2), (1, 0, 1, 2, 1, 0, 1), (1,) * 8, (0,) * 9, (2,) * 10]:
+                jobs.append(("grad", (Float, which, orders)))
+    t0 = time.time()
+    with mp.Pool(min(vlib.NCORES, 16)) as pool:
+        res = pool.map(_memsafe, jobs, chunksize=1)
+    flat = [o for r in res for o in r]
+    rep.add_group("E3 bounds-checked execution of the GOTO program (BOUNDED: enumerated shapes)", len(flat), sum(1 for o in flat if o[1]), time.time() - t0,
+                  bounded="enumerated (ndim, orders, axes lengths, extreme centers); every instantiated core, scalar and SIMD; gradient drivers ndim 1..10", name="C05-nd-walkers-and-gradient-drivers")
+    for o in flat:
+        if not o[1]: rep.add_violation("C05-nd-walkers-and-gradient-drivers", o[0].replace(" ", "_"), o[0] + ": " + o[2], trace=o[2])
+    rep.samples += [o[0] for o in flat[:2]]
+
+def replayer(v):
+    """lookup obligations -> lookup replayer; N-D obligations -> the real library on a table of that shape, all entry points, ASan"""
+    import re, struct
+    m = re.search(r"orders=\[([\d,_ ]*)\]", v["obligation"])
+    if "searchcenters" in v["job"] or not m:
+        return lookup.replayer(True)(v)
+    orders = [int(t) for t in re.findall(r"\d+", m.group(1))]
+    hexd = lambda q: "%016x" % struct.unpack(">Q", struct.pack(">d", float(q)))[0]
+    txt = "ndim %d\n" % len(orders)
+    for o in orders:
+        nk = 2 * o + 3
+        txt += "dim %d %d %s\n" % (o, nk, " ".join(hexd(i) for i in range(nk)))
+    outs = []
+    exe = native.build_driver("replay_lookup", ["src/core/bspline.cpp"])
+    for xs in ([o + 0.5 for o in orders], [2 * o + 2 for o in orders], [0.25 for o in orders]):
+        inp = txt + "x %s\n" % " ".join(hexd(x) for x in xs)
+        rc, out = native.run_driver(exe, inp, "nd")
+        if rc != 0:
+            return dict(replayed=True, input=inp, driver="tools/replay/replay_lookup.cpp (ASan+UBSan, every evaluation entry point)", exit_code=rc, observed=out[:3000])
+        outs.append(out[-300:])
+    return dict(replayed=False, note="native ASan run of every entry point on a table of this shape shows no violation", observed=outs)
+
 if __name__ == "__main__":
     thorough = vlib.TIER == "thorough"
     rep = vlib.Report("C05")
@@ -54,10 +132,13 @@ if __name__ == "__main__":
     alljobs = ljobs + bjobs
     vlib.run_jobs(alljobs, nproc=4)
     rep.add_jobs(alljobs)
+    nd_bounded(rep, thorough)
     lookup.common_assumptions(rep, f, True)
     for fn in fns: rep.functions.append(fn.info())
     rep.assume("1-D routines: knots points `order` doubles into one object of nknots+2*order doubles (the allocation idiom of fitsio.h/fit.h/convolve.h); that every producer allocates this way is checked only syntactically (tools/padding_scan)",
                "bsplvb (no nknots parameter) is analysed inside its callers, its loops closed by their own invariants; it has no separate function contract",
                "bspline/bspline_deriv: memory precondition written with __CPROVER_r_ok so that the recursive call sites can be checked against the same contract",
-               "template parameter Float instantiated textually (-DFloat=float / double)")
-    rep.finish(lookup.replayer(True))
+               "template parameter Float instantiated textually (-DFloat=float / double)",
+               "N-D block walkers (generic + every instantiated specialisation, scalar and SIMD) and gradient drivers: BOUNDED - executed from CBMC's GOTO program on exactly-sized objects for enumerated shapes with the interpreter's bounds checks; counted separately (obligations_bounded), never as proved",
+               "gradient refusal: tables with ndim+1 > PHOTOSPLINE_MAXDIM are refused (ghost flag for the exception, R7) before anything is written, ndim 8, 9, 10 enumerated")
+    rep.finish(replayer)
